@@ -143,10 +143,26 @@ def check(F, rep, tier):
                                 b += [str(u.data) for u in mir.trace_place(cl, [0]) if u.kind == "upvar"] + [y.fields()[-1] for y in mir.trace_place(cl, [0]) if y.fields()]
                             elif x.fields(): b.append(x.fields()[-1])
                         order = (a, b)
+            raw = mir.trace_op(rv, t[2][1], transparent=())
+            arith = [o for o in raw if o.kind == "rv" and mir.rv_at(rv, *o.data)[0] in ("bin", "un", "cast")]
+            if arith:
+                rep.bad("R17.5", "timestamp-rescaled", "the timestamp handed to resolve_timestamp is computed (%s) rather than the stored Unix timestamp: instants in some range would be shifted" % [mir.rv_at(rv, *o.data)[1] for o in arith], "%s bb%d" % (rv.where(), bi))
+                continue
             if order and order[0] == ["bumped_timestamp"] and any("last_timestamp" in y for y in order[1]):
                 rep.ok("R17.5", "timestamp source is bumped_timestamp, else last_timestamp", sample=str(order), nontrivial_key="src%d" % bi)
             else:
                 rep.bad("R17.5", "timestamp-source", "the ts() component does not take bumped_timestamp first and last_timestamp as fallback (found %s)" % (order,), "%s bb%d" % (rv.where(), bi))
+    # who may write the tag time: only the VCS mapping (overrides and context control never clear or change it)
+    writers = set()
+    for p_, f_ in F.fns.items():
+        for bi, si, st in f_.stmts():
+            if st[0] == "=":
+                fl = [e for e in st[1][1:] if not isinstance(e, str) and e[0] == "f"]
+                if fl and fl[-1][2] == "last_timestamp" and fl[-1][3].endswith("vars::ZervVars"): writers.add(p_)
+    extra = {w for w in writers if not w.endswith("vcs_data_to_zerv_vars::vcs_data_to_zerv_vars") and "_serde" not in w}
+    if writers and not extra: rep.ok("R17.5", "ZervVars.last_timestamp is written only by the VCS mapping", sample=sorted(writers), nontrivial_key="lastw")
+    elif not writers: rep.bad("R17.5", "below-floor:last-timestamp-writers", "no write of last_timestamp found (rule blind)", None)
+    else: rep.bad("R17.5", "last-timestamp-overwritten:" + ",".join(sorted(x.replace("crate::", "") for x in extra)), "the tag timestamp (the calendar fallback when there is no commit time) is overwritten outside the VCS mapping: %s" % sorted(extra), None)
     # ---- R17.6 calver core -------------------------------------------------------------------------------------
     cc = F.fn("crate::schema::components::calver_core")
     if rep.anchor("R17.6", "schema::components::calver_core", cc):
